@@ -169,6 +169,16 @@ def pow2_exp(e, env=None):
         if isinstance(e.op, ast.LShift) and isinstance(e.left, ast.Constant) and isinstance(e.left.value, int) and e.left.value > 0 and e.left.value & (e.left.value - 1) == 0:
             r = affine(e.right, env)
             return None if r is None else r + const(e.left.value.bit_length() - 1)
+        # (2**a) << b  and  (2**a) * 2**b
+        if isinstance(e.op, ast.LShift):
+            l = pow2_exp(e.left, env)
+            r = affine(e.right, env)
+            if l is not None and r is not None:
+                return l + r
+        if isinstance(e.op, ast.Mult):
+            l, r = pow2_exp(e.left, env), pow2_exp(e.right, env)
+            if l is not None and r is not None:
+                return l + r
     if isinstance(e, ast.Constant) and isinstance(e.value, int) and not isinstance(e.value, bool):
         v = e.value
         if v > 0 and v & (v - 1) == 0:
